@@ -34,7 +34,8 @@ SPEC = dict(
          "(no 'trivial' tag is used; depth-1 cases have number/symbol operands). Tags: exact-d<k> = exact "
          "integer-exponent family, k = depth of the sub-tree whose construction is checked (certificate checked by the "
          "proven Lean normaliser + exact Q(i) oracle + subs oracle); radical-* = non-integer-exponent family "
-         "(numeric oracle only, Lean driver answers SKIP:radical-family); fixed = boundary cases. impl_stats count "
+         "(numeric oracle only, Lean driver answers SKIP:radical-family), radical-symexp-* = same numeric base with symbolic "
+         "exponents whose sum is rational (exponent merging in Mul::dict_add_term_new); fixed = boundary cases. impl_stats count "
          "judged/discarded oracle points (exact_points_*, numeric_points_*, numeric_discard_near_cut/singularity).",
     not_covered=[
         "floating-point operands (value 'within rounding' is not a theorem; the checker answers SKIP:operand-float)",
